@@ -46,6 +46,11 @@ class Tolerated(Exception):
         self.finding = finding
 
 
+class HarnessUnsupported(Exception):
+    """The harness cannot model the code as it now is (e.g. a mechanism it substitutes is gone): never a verdict about the code -
+    the job ends as HARNESS-ERROR (exit code 2), with this message."""
+
+
 class AssumptionViolated(Exception):
     """Only raised in native (replay) mode."""
 
@@ -450,6 +455,8 @@ def explore(ob: Obligation, fixed: dict, budget_s: float, known: list, seed: int
                     if efilter.user_exc:
                         exc = efilter.user_exc[0]
                         if isinstance(exc, NotDeterministic):
+                            raise exc
+                        if isinstance(exc, HarnessUnsupported):
                             raise exc
                         if isinstance(exc, Tolerated):
                             tolerated = exc
